@@ -184,6 +184,24 @@ pub fn drive_c14(a: &Args, out: &mut Out) {
             }
         }
     }
+    // more distinct tokens than a narrow integer type can number (the ids must not wrap):
+    // the last old token collides with the id of token 0 if ids are u8 / u16
+    for &distinct in &[256usize, 65536] {
+        let mut x = String::new();
+        for k in 0..distinct {
+            x.push_str(&format!("l{}\n", k));
+        }
+        let y = format!("{}l0\n", x);
+        x.push_str("A\n");
+        for alg in ALGS {
+            let case = out.next_case();
+            let mut v = textops_record::<str>(case, alg, "lines", "str", -1, &x, &y);
+            v["old"] = json!([]);
+            v["new"] = json!([]);
+            v["big"] = json!(distinct);
+            out.emit(&v);
+        }
+    }
     // IdentifyDistinct
     let nid = if thorough { 6000 } else { 600 };
     for i in 0..nid {
